@@ -125,7 +125,7 @@ def gen_case(seed, run, tier):
     rs = core.stream(seed, "c08/swarm", run)
     rf = core.stream(seed, "c08/faults", run)
     spec, init = gen_system(rw, live=False)
-    single = rs.random() < 0.15
+    single = rs.random() < 0.2
     if single:
         for _ in range(50):
             if len(spec["eqs"]) == 1 and not spec["kind"].startswith("precip") and all(v > 0 for v in init.values()):
@@ -188,6 +188,10 @@ def gen_case(seed, run, tier):
         ops = [o for o in ops if o["op"] != "roots" and o["op"] != "solve" and not o.get("x0")]
     if single:
         ops.insert(0, {"op": "brentq"})
+        if rs.random() < 0.5:
+            ops[0]["gamma"] = rs.choice([0.5, 0.8, 1.25, 2.0])
+            if rf.random() < 0.6:
+                ops[0]["raise_at"] = rf.randint(1, 8)
         if rw.random() < 0.5:
             # a weak acid that has barely dissociated: small K, products dilute or absent
             e0 = spec["eqs"][0]
@@ -197,6 +201,11 @@ def gen_case(seed, run, tier):
                 if n != "H2O":
                     init[n] = _logu(rw, -4, -1)
             e0["K"] = min(e0["K"], 10 ** rw.uniform(-12, -8))
+    if rs.random() < (0.5 if precip else 0.15) and not single:
+        # the user changes an equilibrium constant on the live objects (e.g. another temperature) and solves again with
+        # the solver object prepared earlier
+        ops.append({"op": "root", "chain": rs.choice(["log", "loglin", "lin"]), "rref_equil": False, "rref_preserv": False, "x0": None,
+                    "werror": False, "rekey": rs.choice([0.01, 100.0]) if precip else rs.choice([0.1, 10.0, 0.01])})
     kinds = [k for k in NSV.FAULT_KINDS if rs.random() < 0.8] or ["fail_nan"]
     enum = {"kinds": kinds, "early": sorted(rf.sample(range(1, 21), 3 if tier == "quick" else 6)), "max_inv": 6 if tier == "quick" else 14,
             "pairs": 0 if tier == "quick" else 6, "fseed": rf.randrange(1 << 30)}
@@ -229,7 +238,7 @@ class Ctx(object):
     """Per-case execution context (objects live across the operations of a history)."""
 
     def __init__(self, case):
-        self.spec = case["spec"]
+        self.spec = copy.deepcopy(case["spec"])
         self.names = self.spec["species"]
         self.init = [float(case["init"][n]) for n in self.names]
         self.eqsys = build_eqsys(self.spec)
@@ -332,7 +341,19 @@ def call_op(ctx, op, faults, reuse, eqsys=None):
 
                 e = ctx.spec["eqs"][0]
                 stoich = [e["prod"].get(n, 0) - e["reac"].get(n, 0) for n in ctx.names]
-                x = solve_equilibrium(list(ctx.init), stoich, e["K"])
+                akw = {}
+                if op.get("gamma"):
+                    calls = [0]
+
+                    def activity_product(c, _g=float(op["gamma"]), _at=op.get("raise_at")):
+                        calls[0] += 1
+                        if _at is not None and calls[0] >= _at:  # from its k-th call on the model refuses
+                            rec["callback_raised"] = True
+                            raise ValueError("activity model outside its range of validity (injected)")
+                        return _g
+
+                    akw["activity_product"] = activity_product
+                x = solve_equilibrium(list(ctx.init), stoich, e["K"], **akw)
                 points.append((list(ctx.init), [float(v) for v in x], True, True))
             else:
                 raise core.HarnessError("unknown op %r" % op["op"])
@@ -548,6 +569,14 @@ def execute(case):
 
     for op in case["ops"]:
         faults0 = op.get("faults") or []
+        if op.get("rekey"):
+            one(op, [], True, "rekey0")
+            f = float(op["rekey"])
+            ctx.eqsys.rxns[0].param = ctx.eqsys.rxns[0].param * f
+            ctx.spec["eqs"][0]["K"] = ctx.spec["eqs"][0]["K"] * f
+            one(op, [], True, "rekey1")
+            bump("rekey_sequences")
+            continue
         if op.get("static") is not None:
             if op.get("pre_static"):
                 # same EqSystem, opposite phase assumption first: its result is the user's business and is not judged
@@ -562,14 +591,27 @@ def execute(case):
         base = one(op, [], False, "fresh")
         enum = case["enumerate"]
         if op["op"] == "brentq":
-            # X1: agreement with the default-chain root
-            ref = one({"op": "root", "chain": "loglin", "x0": None}, [], False, "x1")
+            # X1: agreement with the default-chain root (for a constant activity product g: the root of K/g)
+            if op.get("gamma"):
+                gspec = copy.deepcopy(ctx.spec)
+                gspec["eqs"][0]["K"] = gspec["eqs"][0]["K"] / float(op["gamma"])
+                gctx = Ctx({"spec": gspec, "init": case["init"]})
+                ref = call_op(gctx, {"op": "root", "chain": "loglin", "x0": None}, [], False)
+                if base.get("callback_raised"):
+                    bump("fault_fired:activity_callback_raise")
+                if base.get("callback_raised") and base["outcome"] == "returned":
+                    bump("probe:scalar_solver_returned_although_callback_raised")
+            else:
+                ref = one({"op": "root", "chain": "loglin", "x0": None}, [], False, "x1")
             if base["points"] and ref["points"]:
                 _, xb, _, _ = base["points"][0]
                 c0, xr, s, a = ref["points"][0]
                 # brentq stops at an absolute tolerance of 2e-12 on the reaction coordinate, so a trace species
                 # carries that absolute error: Q = K is not demanded of it beyond that, conservation and sign are
                 badb = [b for b in EQ.check_point(ctx.spec, c0, xb, tol_lnq=float("inf"))]
+                if op.get("gamma"):
+                    if s and a and EQ.check_point(gspec, c0, xr):
+                        s = False  # reference itself not genuine: nothing to compare with
                 e0 = ctx.spec["eqs"][0]
                 nus = [abs(e0["prod"].get(n, 0) - e0["reac"].get(n, 0)) for n in ctx.names]
                 if badb:
